@@ -147,7 +147,15 @@ func keyKind(u *an.Unit, s *an.Site) string {
 	return encoderOf(u, s.Call.Args[0])
 }
 
+var encoderDepth int
+
 func encoderOf(u *an.Unit, e ast.Expr) string {
+	// (definitions can form a cycle once helpers are read in place of their calls: x = y in one, y = x in another)
+	encoderDepth++
+	defer func() { encoderDepth-- }()
+	if encoderDepth > 12 {
+		return "?"
+	}
 	e = ast.Unparen(e)
 	if call, ok := e.(*ast.CallExpr); ok {
 		for _, cs := range u.Sites {
